@@ -24,10 +24,15 @@ type scanner struct {
 	panicked string
 	calls    int
 	chk      []uint64
+	pre      *dyn.ConvOp
+	pres     []*dyn.ConvOp
 }
 
 // scanPartial counts the conversions whose operands ended in a partly filled frame.
 var scanPartial int64
+
+// scanPreWritten counts the conversions whose source was last written as a whole by another conversion.
+var scanPreWritten int64
 
 // scanShortDst counts the extra conversions into a destination shorter than the source.
 var scanShortDst int64
@@ -39,6 +44,7 @@ func flushScanObs(c *core.Ctx) {
 	c.Obs("conversions_on_operands_ending_in_a_partial_frame", atomic.SwapInt64(&scanPartial, 0))
 	c.Obs("same_type_scans_between_two_windows_of_one_buffer", atomic.SwapInt64(&scanSameParent, 0))
 	c.Obs("conversions_into_a_shorter_destination_with_spare_capacity", atomic.SwapInt64(&scanShortDst, 0))
+	c.Obs("conversions_of_a_source_last_written_by_another_conversion_and_then_through_a_second_view", atomic.SwapInt64(&scanPreWritten, 0))
 }
 
 const chunkN = 1 << 14
@@ -122,7 +128,35 @@ func (s *scanner) conv(in []uint64) []uint64 {
 		// every other call: the whole destination buffer (longer than the source)
 		dst = s.dst
 	}
-	s.cv.S.Fill(src, in)
+	if s.calls%8 == 5 && n%s.ch == 0 && src.Length() > 0 {
+		// the source operand was last written as a whole by another library
+		// conversion (as its destination); the samples to convert are then put
+		// in through a second view of the same storage, not through the operand
+		if s.pres == nil {
+			for _, o := range dyn.AllConvs() {
+				// one per conversion function (the narrowest source type of each)
+				if o.D == s.cv.S && o.S != o.D && !o.S.Named && (len(s.pres) == 0 || s.pres[len(s.pres)-1].Fn != o.Fn) {
+					s.pres = append(s.pres, o)
+				}
+			}
+		}
+		s.pre = nil
+		if len(s.pres) > 0 {
+			s.pre = s.pres[(s.calls/8)%len(s.pres)]
+		}
+		if s.pre != nil {
+			psrc := s.pre.S.Alloc(signal.Allocator{Channels: s.ch, Length: src.Length(), Capacity: src.Length()})
+			if p, msg := core.Guard(func() { s.pre.Call(psrc, src) }); p && s.panicked == "" {
+				s.panicked = msg
+			}
+			s.cv.S.Fill(src.Slice(0, src.Length()), in)
+			atomic.AddInt64(&scanPreWritten, 1)
+		} else {
+			s.cv.S.Fill(src, in)
+		}
+	} else {
+		s.cv.S.Fill(src, in)
+	}
 	srcLen, dstLen := src.Len(), dst.Len()
 	if fr := dst.Length(); s.calls%8 == 3 && n%s.ch == 0 && fr >= 2 && s.panicked == "" {
 		// first into a destination SHORTER than the source with spare capacity
